@@ -78,7 +78,7 @@ def run_shard(args):
         if last_prog is not None and last_prog not in done:
             tail = [l for l in out.splitlines() if "panicked" in l or "Causality" in l or "C05" in l or "C06" in l][-3:]
             msg = " | ".join(tail) or out[-300:]
-            prop = "C05" if "C05" in msg and "Causality" not in msg else "C06"
+            prop = "C06,C05" if "Causality" in msg else "C05,C02,C03"
             merged["violations"].append({"program": last_prog, "property": prop, "msg": "model process aborted: " + msg[:400], "desc": last_desc})
             merged["crashes"] += 1
             merged["programs"] += len(done) + 1
@@ -106,12 +106,10 @@ def run(vc, pid, tier, sets):
             errors += errs
             viols = []
             for v in merged["violations"]:
-                # a data race on buffer memory also breaks C05 ("under every interleaving and every outcome the memory
-                # model allows each thread reads the correct bytes"): report causality violations under both ids
-                if v["property"] == "C06" and pid == "C05" and "ausality" in v["msg"]:
-                    v = dict(v, property="C05")
-                # stable case id: representation + sorted thread programs
-                viols.append({"property": v["property"], "case": "loom:" + v.get("desc", "")[:200], "msg": "%s | program #%s %s" % (v["msg"], v["program"], v.get("desc", "")),
+                # each model violation names every property it breaks ("C05,C07,C01"); report it under the id being checked
+                props = [x for x in v["property"].split(",") if x]
+                prop = pid if pid in props else props[0]
+                viols.append({"property": prop, "case": "loom:" + v.get("desc", "")[:200], "msg": "%s | program #%s %s" % (v["msg"], v["program"], v.get("desc", "")),
                               "replay": {"engine": "loom", "env": dict(envx, VERIF_LOOM_ONLY=str(v["program"]))}})
             results.append({"engine": "loom", "property": pid, "config": "%s/%s/preemptions=%s" % (envx["VERIF_LOOM_SET"], envx["VERIF_LOOM_SHARD"], envx["VERIF_LOOM_PREEMPTIONS"]),
                             "evaluations": merged["executions"], "distinct_nontrivial": merged["programs_with_several_outcomes"], "states": merged["executions"],
